@@ -86,34 +86,28 @@ Proof. intros s r methods m H Ho. rewrite (raised_exception _ _ _ _ H Ho). refle
 (* everything else: a bare 5.00 — no payload, whatever the exception or value was *)
 Definition yields_bare_500 (o : outcome) : Prop :=
   o = Raise_ EOther \/ o = Raise_ (ERenderable TMRaises) \/ o = Raise_ (ERenderable (TMReturn VNone)) \/
+  o = Raise_ (ERenderable (TMReturn VOther)) \/ o = Raise_ (ERenderable (TMReturn VNoResponse)) \/
   o = Return VNone \/ o = Return VOther.
 Lemma bare_500_table : forall s r methods, handled s r methods -> yields_bare_500 (r_outcome r) ->
   final_message (Some s) r = Some bare_500.
 Proof.
   intros s r methods H Ho. unfold final_message. rewrite (handled_render _ _ _ H).
   destruct H as (_ & H2 & H3). unfold render. rewrite H2, H3.
-  destruct Ho as [Ho|[Ho|[Ho|[Ho|Ho]]]]; rewrite Ho; reflexivity.
+  destruct Ho as [Ho|[Ho|[Ho|[Ho|[Ho|[Ho|Ho]]]]]]; rewrite Ho; reflexivity.
 Qed.
 
-(* totality: for resources built on resource.Resource there is always a final message, except when an error renderer
-   hands back a non-Message that is not None (the finding; see renderer_garbage_unanswered below) *)
-Definition renderer_garbage (o : outcome) : Prop :=
-  o = Raise_ (ERenderable (TMReturn VNoResponse)) \/ o = Raise_ (ERenderable (TMReturn VOther)).
+(* totality: for resources built on resource.Resource there is always a final message *)
 Definition not_raw (srv : option site) (r : request) : Prop :=
   match srv with Some s => find_resource s (r_path r) <> Some Raw | None => True end.
-Lemma final_message_total : forall srv r, not_raw srv r ->
-  (exists m, final_message srv r = Some m) \/
-  (final_message srv r = None /\ reaches_handler srv r = true /\ renderer_garbage (r_outcome r)).
+Lemma final_message_total : forall srv r, not_raw srv r -> exists m, final_message srv r = Some m.
 Proof.
-  intros [s|] r Hn; [|left; eexists; reflexivity].
-  unfold final_message, respond, reaches_handler, not_raw in *.
-  destruct (find_resource s (r_path r)) as [[methods|]|] eqn:Hf; [| congruence | left; eexists; reflexivity].
+  intros [s|] r Hn; [|eexists; reflexivity].
+  unfold final_message, respond, not_raw in *.
+  destruct (find_resource s (r_path r)) as [[methods|]|] eqn:Hf; [| congruence | eexists; reflexivity].
   unfold render.
-  destruct (is_request (r_code r)) eqn:H1; cbn [negb andb]; [|left; eexists; reflexivity].
-  destruct (existsb (Z.eqb (r_code r)) methods) eqn:H2; cbn [negb]; [|left; eexists; reflexivity].
-  destruct (r_outcome r) as [[m| | |]|[[[m| | |]|]|]|l] eqn:Ho; cbn;
-    try (left; eexists; reflexivity);
-    right; unfold renderer_garbage; auto.
+  destruct (is_request (r_code r)) eqn:H1; cbn [negb andb]; [|eexists; reflexivity].
+  destruct (existsb (Z.eqb (r_code r)) methods) eqn:H2; cbn [negb]; [|eexists; reflexivity].
+  destruct (r_outcome r) as [[m| | |]|[[[m| | |]|]|]|l] eqn:Ho; cbn; eexists; reflexivity.
 Qed.
 (* the final message always has a code *)
 Lemma final_message_has_code : forall srv r m, not_raw srv r ->
@@ -206,10 +200,12 @@ Proof.
       destruct e as [[[m| | |]|]|]; cbn.
       * split; [right; reflexivity|]. split; [intros [H|[]]; discriminate|].
         right. repeat split. exists []. split; [intros x []|]. right. exists m. reflexivity.
-      * split; [left; reflexivity|]. split; [intros []|]. left. split; [reflexivity|intros x []].
       * split; [right; reflexivity|]. split; [intros [H|[H|[]]]; discriminate|].
         right. repeat split. exists [Log LogRenderFailed]. split; [intros x [<-|[]]; reflexivity|]. right. eexists. reflexivity.
-      * split; [left; reflexivity|]. split; [intros []|]. left. split; [reflexivity|intros x []].
+      * split; [right; reflexivity|]. split; [intros [H|[H|[]]]; discriminate|].
+        right. repeat split. exists [Log LogRenderFailed]. split; [intros x [<-|[]]; reflexivity|]. right. eexists. reflexivity.
+      * split; [right; reflexivity|]. split; [intros [H|[H|[]]]; discriminate|].
+        right. repeat split. exists [Log LogRenderFailed]. split; [intros x [<-|[]]; reflexivity|]. right. eexists. reflexivity.
       * split; [right; reflexivity|]. split; [intros [H|[H|[]]]; discriminate|].
         right. repeat split. exists [Log LogRenderFailed]. split; [intros x [<-|[]]; reflexivity|]. right. eexists. reflexivity.
       * split; [right; reflexivity|]. split; [intros [H|[H|[]]]; discriminate|].
@@ -349,14 +345,14 @@ Proof.
   destruct (render methods r); [left|right]; eexists; reflexivity.
 Qed.
 Lemma coroutine_final_once : forall srv r, not_raw srv r ->
-  match final_message srv r with
-  | Some m => exists logs n, run_ractions live (respond srv r) = (ended, map Log logs ++ [Send m true], n)
-  | None => exists logs, run_ractions live (respond srv r) = (live, map Log logs, 1)
-  end.
+  exists m logs n, final_message srv r = Some m /\
+                   run_ractions live (respond srv r) = (ended, map Log logs ++ [Send m true], n).
 Proof.
   intros srv r Hn. unfold final_message. destruct (respond_not_raw srv r Hn) as [(m & ->)|(e & ->)].
-  - exists [], 0. reflexivity.
+  - exists m, [], 0. split; reflexivity.
   - cbn [run_ractions]. rewrite live_raise.
-    destruct (exception_to_value e) as [[m| | |] logs]; cbn [fst]; try (exists logs; reflexivity).
-    exists logs, 0. reflexivity.
+    destruct e as [[[m| | |]|]|]; cbn;
+      [exists m, [], 0 | exists bare_500, [LogRenderFailed], 0 | exists bare_500, [LogRenderFailed], 0
+      | exists bare_500, [LogRenderFailed], 0 | exists bare_500, [LogRenderFailed], 0 | exists bare_500, [LogException], 0];
+      split; reflexivity.
 Qed.
